@@ -105,3 +105,14 @@ Theorem reach_same_routes b1 b2 ops1 ops2 chk p :
   (forall r0 i, RM (r_root (run b1 ops1)) r0 i <-> RM (r_root (run b2 ops2)) r0 i) ->
   rsearch chk (run b1 ops1) p = rsearch chk (run b2 ops2) p.
 Proof. apply same_RM_search; apply reachable_inv. Qed.
+
+(* C05: two histories that leave the same set of live (template, data) pairs answer every path alike *)
+Theorem reach_same_live b1 b2 ops1 ops2 chk p :
+  (forall x, In x (live_of b1 ops1) <-> In x (live_of b2 ops2)) ->
+  rsearch chk (run b1 ops1) p = rsearch chk (run b2 ops2) p.
+Proof. intros H. apply (same_live_same_answers _ _ _ _ chk p (reachable_abs b1 ops1) (reachable_abs b2 ops2) H). Qed.
+
+Theorem reach_same_live_routes b1 b2 ops1 ops2 :
+  (forall x, In x (live_of b1 ops1) <-> In x (live_of b2 ops2)) ->
+  forall r0 i, RM (r_root (run b1 ops1)) r0 i <-> RM (r_root (run b2 ops2)) r0 i.
+Proof. intros H. apply (same_live_same_routes _ _ _ _ (reachable_abs b1 ops1) (reachable_abs b2 ops2) H). Qed.
